@@ -1016,6 +1016,11 @@ pub fn c11(scn: &Scenario, tr: &[Ev]) -> Vec<Violation> {
                     if accepted_at(&ix, s).map(|p| p < o.start).unwrap_or(false) && !matches!(&s.res, Some(Res::Err { .. })) {
                         surely += 1;
                     }
+                    // a stop request that was accepted and has not been taken out of the mailbox yet is a queued
+                    // message like any other
+                    if s.k == OpK::Stop && matches!(s.res, Some(Res::Ok)) && s.end.map(|e| e < o.start).unwrap_or(false) {
+                        surely += 1;
+                    }
                 }
                 let min = held + if own_ref { 1 } else { 0 } + surely;
                 let max = held + if own_ref { 1 } else { 0 } + maybe + ax.crashed() as usize * 0;
